@@ -539,6 +539,13 @@ def ks1(P, C):
                     and f.nodes[f.strip(ap[1])]["op"] == "-" and f.nodes[f.strip(f.nodes[f.strip(ap[1])]["ch"][0])].get("cv") == 80:
                 lim = f.nodes[f.strip(ap[0])]["decl"]["id"]
         init = [f.nodes[d["init"]].get("cv") for i in f.walk() if f.k(i) == "DeclStmt" for d in f.nodes[i]["decls"] if d.get("id") == lim and d.get("init", -1) >= 0]
+        if not init:
+            # the value the local starts with may be a plain assignment of a constant (a declaration without initialiser, or one that a
+            # folded helper's result variable was merged into)
+            init = [f.nodes[f.strip(ts.assign_parts(f, i)[1])].get("cv") for i in f.walk()
+                    if ts.assign_parts(f, i) and ts.assign_parts(f, i)[1] is not None and f.nodes[i].get("op", "=") == "=" and
+                    f.k(f.strip(ts.assign_parts(f, i)[0])) == "DeclRefExpr" and f.nodes[f.strip(ts.assign_parts(f, i)[0])]["decl"].get("id") == lim and
+                    "cv" in f.nodes[f.strip(ts.assign_parts(f, i)[1])]]
         C.ob("KS-1", name, "short-key-value-limit", init == [68], f.where(), "a standard card leaves 68 characters for a string value: %s" % init)
 
 
